@@ -3,14 +3,15 @@
 # change compiles, passes the pinned suite, and that its demonstration fails with it and passes without it.
 set -u
 d="$(cd "$1" && pwd)"
-WT=/tmp/verify-wt
+WT="${VERIFY_WT:-/tmp/verify-wt}"   # VERIFY_WT: another scratch worktree (several verifications at a time)
+LOGTAG=$(basename "$WT")
 export CARGO_NET_OFFLINE=true
 if [ ! -d $WT ]; then git -C /repo worktree add -q --detach $WT HEAD || exit 2; cp /repo/Cargo.lock $WT/; fi
 cd $WT || exit 2
 git checkout -q --detach "$(git -C /repo rev-parse HEAD)" 2>/dev/null
 git checkout -q -- . ; git clean -fdq -e target -e Cargo.lock >/dev/null
 git apply "$d/patch.diff" || { echo "RESULT patch_applies=no"; exit 1; }
-build=ok; cargo build --offline >/tmp/vs-build.log 2>&1 || build=FAIL
+build=ok; cargo build --offline >/tmp/vs-build-$LOGTAG.log 2>&1 || build=FAIL
 suite=""
 for i in 1 2 3; do
   out=$(cargo test --workspace --no-fail-fast --offline 2>&1)
@@ -35,9 +36,9 @@ if [ -f "$d/demo.diff" ]; then
   git apply -R "$d/patch.diff"
   o=$(cargo test --offline "$name" 2>&1); if echo "$o" | grep -qE "test result: ok. [1-9]"; then demo_without=PASS; elif echo "$o" | grep -qE "FAILED|panicked"; then demo_without=FAIL; else demo_without="?"; fi
 elif [ -f "$d/demo.sh" ]; then
-  (bash "$d/demo.sh" $WT >/tmp/vs-demo.log 2>&1) && demo_with=PASS || demo_with=FAIL
+  (bash "$d/demo.sh" $WT >/tmp/vs-demo-$LOGTAG.log 2>&1) && demo_with=PASS || demo_with=FAIL
   git apply -R "$d/patch.diff"
-  (bash "$d/demo.sh" $WT >/tmp/vs-demo.log 2>&1) && demo_without=PASS || demo_without=FAIL
+  (bash "$d/demo.sh" $WT >/tmp/vs-demo-$LOGTAG.log 2>&1) && demo_without=PASS || demo_without=FAIL
 fi
 git checkout -q -- . ; git clean -fdq -e target -e Cargo.lock >/dev/null
 echo "RESULT build=$build suite=[$suite] other_failed=[${failed:-}] demo=$name demo_with_change=$demo_with demo_without_change=$demo_without"
